@@ -3,13 +3,17 @@ package main
 import (
 	"go/ast"
 	"go/token"
+	"os"
+	"path/filepath"
+	"strings"
 )
 
 // C20: structural lock facts for package batching (HARD obligations, no fallback). The models treat every method of
 // EventBatcher and ReorderBuffer.Add / the whole Drain loop as one atomic action, and batcher.Flush + buffer.Reserve of
 // ReorderFetcher.flush as one critical section of flushMu. These facts are what that is read off from.
 //
-//	c20BatcherMethodsLocked  every exported method of EventBatcher: (after verifhook.At hook points) its first two
+//	c20BatcherMethodsLocked  every exported method of EventBatcher, and every method that mentions b.batch / b.batchToken, in any
+//	                         non-test file of the package: (after verifhook.At hook points) its first two
 //	                         statements are `b.mu.Lock()` and `defer b.mu.Unlock()`, and these are the only operations
 //	                         on b.mu in the method (function literals, which run later, excluded)
 //	c20BufferAddDrainLocked  ReorderBuffer.Add has that shape; ReorderBuffer.Drain returns exactly one function literal
@@ -17,7 +21,7 @@ import (
 //	c20ReserveUnderFlushMu   ReorderFetcher.flush (or the one helper method of the same receiver it calls directly that takes
 //	                         flushMu): flushMu.Lock() comes before batcher.Flush, buffer.Reserve() after it,
 //	                         flushMu is not released in between except on a path that returns, it is released after
-//	                         Reserve, and Reserve is called nowhere else in the package
+//	                         Reserve, and neither Reserve nor `.batcher.Flush` is called anywhere else in the package
 func init() { extraFactFns = append(extraFactFns, c20Facts) }
 
 func c20MuOps(n ast.Node, mu string) int {
@@ -58,6 +62,13 @@ func c20LockedBody(body *ast.BlockStmt, mu string) bool {
 	return ok1 && ok2 && selCall(first.X) == mu+".Lock" && selCall(second.Call) == mu+".Unlock" && c20MuOps(body, mu) == 2
 }
 
+func asExpr(n ast.Node) ast.Expr {
+	if e, ok := n.(ast.Expr); ok {
+		return e
+	}
+	return nil
+}
+
 // c20FindMethod also handles receivers with several type parameters (ReorderFetcher[T, R])
 func c20FindMethod(f *ast.File, recv, name string) *ast.FuncDecl {
 	for _, d := range f.Decls {
@@ -89,16 +100,40 @@ func c20Facts(fc *facts) {
 		}
 		return 0
 	}
-	bf := parseFile("batching/batching.go")
-	okBatcher, nMethods := true, 0
-	for _, d := range bf.Decls {
-		fd, ok := d.(*ast.FuncDecl)
-		if !ok || fd.Recv == nil || !fd.Name.IsExported() || findFunc(bf, "EventBatcher", fd.Name.Name) != fd {
-			continue
+	// every non-test file of package batching (also verif-tagged accessor files)
+	pkgFiles := []*ast.File{}
+	if ents, err := os.ReadDir(filepath.Join(repo, "batching")); err == nil {
+		for _, e := range ents {
+			if strings.HasSuffix(e.Name(), ".go") && !strings.HasSuffix(e.Name(), "_test.go") {
+				pkgFiles = append(pkgFiles, parseFile("batching/"+e.Name()))
+			}
 		}
-		nMethods++
-		if !c20LockedBody(fd.Body, recvName(fd)+".mu") {
-			okBatcher = false
+	}
+	touchesBatch := func(fd *ast.FuncDecl) bool {
+		r, hit := recvName(fd), false
+		ast.Inspect(fd.Body, func(x ast.Node) bool {
+			if n := selName(asExpr(x)); n == r+".batch" || n == r+".batchToken" {
+				hit = true
+			}
+			return true
+		})
+		return hit
+	}
+	okBatcher, nMethods := true, 0
+	for _, file := range pkgFiles {
+		for _, d := range file.Decls {
+			fd, ok := d.(*ast.FuncDecl)
+			if !ok || fd.Recv == nil || fd.Body == nil || c20FindMethod(file, "EventBatcher", fd.Name.Name) != fd {
+				continue
+			}
+			// exported methods, and any method that reads or writes the batch or its token
+			if !fd.Name.IsExported() && !touchesBatch(fd) {
+				continue
+			}
+			nMethods++
+			if !c20LockedBody(fd.Body, recvName(fd)+".mu") {
+				okBatcher = false
+			}
 		}
 	}
 	// Add, IsFull and Flush are the methods the model has; fewer means the file no longer has the expected shape
@@ -244,19 +279,23 @@ func c20Facts(fc *facts) {
 			}
 		}
 		okFlush = okFlush && after
-		// Reserve is called nowhere else in the package
-		reserveCalls := 0
-		for _, file := range []*ast.File{bf, rb, rf} {
+		// Reserve is called nowhere else in the package, and the fetcher takes batches from its batcher nowhere else
+		// (`flushA` is the model's only batch-taking action)
+		reserveCalls, flushCalls := 0, 0
+		for _, file := range pkgFiles {
 			ast.Inspect(file, func(x ast.Node) bool {
 				if c, ok := x.(*ast.CallExpr); ok {
 					if se, ok := c.Fun.(*ast.SelectorExpr); ok && se.Sel.Name == "Reserve" {
 						reserveCalls++
 					}
+					if strings.HasSuffix(selName(c.Fun), ".batcher.Flush") {
+						flushCalls++
+					}
 				}
 				return true
 			})
 		}
-		okFlush = okFlush && reserveCalls == 1
+		okFlush = okFlush && reserveCalls == 1 && flushCalls == 1
 	}
 	fc.set("c20ReserveUnderFlushMu", b2u(okFlush), entry != nil, "batching.ReorderFetcher.flush")
 }
